@@ -348,7 +348,7 @@ fn geo_session(sc: &Value, tr: &mut Tracer) {
 		5 => Easing::OutPowf(2.5),
 		_ => Easing::Linear,
 	};
-	tr.reset(json!({"kind": "geo", "q": q, "minc": sc["minc"].as_i64().unwrap_or(0), "maxc": sc["maxc"].as_i64().unwrap_or(0), "att": att, "s": s1000,
+	tr.reset(json!({"kind": "geo", "q": q, "minc": sc["minc"].as_i64().unwrap_or(0), "maxc": sc["maxc"].as_i64().unwrap_or(0), "att": att, "st": s1000,
 		"tol": sc["tol"].as_i64().unwrap_or(50), "ease": sc["ease"].as_i64().unwrap_or(0),
 		"cls": sc["cls"].as_str().unwrap_or("")}));
 	let input = if s1000 == 0 { Frame::new(0.5, 0.25) } else { Frame::from_mono(0.5) };
